@@ -36,18 +36,7 @@ def _worker(arg):
                 "lib_used": [], "trusted": [], "samples": [], "seconds": 0, "prop": full.split("/")[0]}
 
 
-def run_replay(path):
-    """Run a replay script against the real code. Returns (confirmed, output)."""
-    full = path if os.path.isabs(path) else os.path.join(ROOT, path)
-    env = dict(os.environ)
-    env["PYTHONPATH"] = REPO
-    env["PYTHONWARNINGS"] = "ignore"
-    try:
-        p = subprocess.run([VENV_PY, full], capture_output=True, text=True, timeout=600, env=env, cwd=ROOT)
-    except subprocess.TimeoutExpired:
-        return False, "replay timed out"
-    out = (p.stdout or "") + (p.stderr or "")[-2000:]
-    return ("REPLAY-CONFIRMED" in p.stdout and p.returncode == 1), out
+from pyvc.replayrun import run_replay  # noqa: E402
 
 
 def load_known():
